@@ -404,6 +404,8 @@ pub enum Op {
     SetReady(bool),
     SetFlush(bool),
     Fault(&'static str),
+    FaultSkip(u64),
+    SelfWake(bool),
     Take(usize),
     Advance(u64),
     Settle,
@@ -454,6 +456,8 @@ impl Op {
             ["set-ready", b] => Some(Op::SetReady(*b == "1")),
             ["set-flush", b] => Some(Op::SetFlush(*b == "1")),
             ["fault", k] => ["ready", "send", "flush", "close", "next"].into_iter().find(|x| x == k).map(Op::Fault),
+            ["fault-skip", n] => Some(Op::FaultSkip(n.parse().ok()?)),
+            ["self-wake", b] => Some(Op::SelfWake(*b == "1")),
             ["take", n] => Some(Op::Take(n.parse().ok()?)),
             ["advance", n] => Some(Op::Advance(n.parse().ok()?)),
             ["settle"] => Some(Op::Settle),
@@ -478,6 +482,8 @@ impl Op {
             Op::SetReady(b) => format!("set-ready {}", *b as u8),
             Op::SetFlush(b) => format!("set-flush {}", *b as u8),
             Op::Fault(k) => format!("fault {k}"),
+            Op::FaultSkip(n) => format!("fault-skip {n}"),
+            Op::SelfWake(b) => format!("self-wake {}", *b as u8),
             Op::Take(n) => format!("take {n}"),
             Op::Advance(n) => format!("advance {n}"),
         }
@@ -513,6 +519,8 @@ pub fn apply(out: &mut Out, rt: &tokio::runtime::Runtime, sv: &mut Server, op: &
         Op::Eof => sv.sim.borrow_mut().set_eof(),
         Op::SetReady(b) => sv.sim.borrow_mut().set_ready(*b),
         Op::SetFlush(b) => sv.sim.borrow_mut().set_flush(*b),
+        Op::FaultSkip(n) => sv.sim.borrow_mut().fault_skip = *n,
+        Op::SelfWake(b) => sv.sim.borrow_mut().self_wake = *b,
         Op::Fault(k) => {
             let mut s = sv.sim.borrow_mut();
             match *k {
@@ -589,9 +597,22 @@ struct Gen {
     answered: Vec<u64>,
     /// ids a cancel was injected for (never re-used: the cancel may be read just before the new request)
     cancelled: Vec<u64>,
+    forced: Option<Op>,
+    v2_done: bool,
 }
 
 fn gen_op(rng: &mut Rng, sv: &Server, g: &mut Gen, p: &Params) -> Op {
+    if let Some(op) = g.forced.take() {
+        return op;
+    }
+    if crate::cli::GEN_V2.load(std::sync::atomic::Ordering::SeqCst) != 0 && !g.v2_done {
+        g.v2_done = true;
+        // (only without a request limit: `MaxRequests` returns `Pending` on `poll_ready -> Pending` without flushing
+        // and so relies on the sink to wake it; see DESIGN.md, finding F7 and the note on staging sinks)
+        if p.limit.is_none() && rng.chance(1, 3) {
+            return Op::SelfWake(false);
+        }
+    }
     let live = sv.live_execs();
     let woken: Vec<usize> = live.iter().copied().filter(|r| sv.exec_woken(*r)).collect();
     let pollable = if p.wo { woken } else { live.clone() };
@@ -680,7 +701,15 @@ fn gen_op(rng: &mut Rng, sv: &Server, g: &mut Gen, p: &Params) -> Op {
         }
         8 => Op::SetReady(rng.chance(1, 2)),
         9 => Op::SetFlush(rng.chance(1, 2)),
-        10 => Op::Fault(*rng.pick(&["ready", "send", "flush", "next"])),
+        10 => {
+            let f = Op::Fault(*rng.pick(&["ready", "send", "flush", "next"]));
+            if crate::cli::GEN_V2.load(std::sync::atomic::Ordering::SeqCst) != 0 && !p.wo && rng.chance(1, 2) {
+                g.forced = Some(f);
+                Op::FaultSkip(1 + rng.below(3))
+            } else {
+                f
+            }
+        }
         11 => Op::InjectErr,
         12 => Op::Eof,
         13 => Op::DropServer,
@@ -696,7 +725,7 @@ pub fn run_script(out: &mut Out, idx: u64, p: &Params, rng: &mut Rng, script: Op
     simt::take_log();
     let _sub = crate::cli::install_subscriber(p.sub);
     let mut sv = Server::new("s0", p.limit, p.resp, p.cap, p.coupled);
-    let mut g = Gen { now: 0, nreq: 0, ids: vec![], deadlines: vec![], answered: vec![], cancelled: vec![] };
+    let mut g = Gen { now: 0, nreq: 0, ids: vec![], deadlines: vec![], answered: vec![], cancelled: vec![], forced: None, v2_done: false };
     let mut i = 0usize;
     loop {
         let op = match script {
